@@ -38,7 +38,7 @@ strict_schema_ok._symx_native = True
 def index_sanity(dels):
     n = P(4, 5)
     h, live = holey_hugr(n, dels=dels)
-    links = live_links(P(2, 3), live, max_off=P(1, 2))
+    links = live_links(2, live, max_off=P(1, 2))
     store.attach_links(h, links, {i: 2 for i in live if i != 0})
     s = h._to_serial()
     nn = len(s.nodes)
